@@ -156,6 +156,7 @@ def main():
     quick = c.tier == "quick"
     rng = c.rng
     nprog, nseeds, variants = (12, 2, VARIANTS) if quick else (120, 3, VARIANTS + [(v, str(1000 + v), "sequential") for v in range(6, 24)])
+    nprog = int(os.environ.get("VERIF_C15_NPROG", nprog))   # development aid (self-tests on a loaded machine)
     progs = [gen_program(rng, i) for i in range(nprog)]
     jobs = []
     for p in progs:
